@@ -14,7 +14,8 @@ from ._crash import MARK, HistoryRunner, decode, is_event_write, is_write, remov
 ID = "C06"
 LEVEL = "fault_enumeration"
 ANCHOR_FILES = ["aw_datastore/storages/sqlite.py", "aw_datastore/storages/peewee.py"]
-REQUIRED_COUNTERS = ["crash_points_observed.sqlite", "crash_points_observed.peewee", "real_crashes", "returns_checked"]
+REQUIRED_COUNTERS = ["crash_points_observed.sqlite", "crash_points_observed.peewee", "real_crashes", "returns_checked",
+                     "collateral_loss_checks"]
 LOST_BOUND = 64   # "at most the last few dozen (documented: about 50) buffered event writes"
 RULE = ("operation histories (10-400 ops: single inserts, bulk inserts of 1-250 rows, upserts, replace, replace_last, "
         "long runs of deletes, flushing reads, bucket create/update/delete; some write-only runs of > 200 ops) on a "
@@ -86,8 +87,12 @@ def gen_history(rng, nops, uid0=0, write_only=False):
             ops.append(dict(op="replace_last", b=b, ev=ev()))
         elif r < 0.8:
             ops.append(dict(op="delete", b=b, pick=rng.randrange(1000)))
-        elif r < 0.83:
+        elif r < 0.815:
             ops.append(dict(op="delete_missing", b=b, n=k))
+        elif r < 0.83:
+            ops.append(dict(op="fail", b=b, ev=ev(), ev2=ev(), what=rng.choice(
+                ["create_existing", "create_existing", "delete_missing_bucket", "update_missing_bucket", "upsert_unbindable",
+                 "insert_unserializable"])))
         elif r < 0.89 and not write_only:
             ops.append(dict(op="read", b=b, how=rng.choice(["get", "get1", "count", "byid"])))
         elif r < 0.93:
@@ -225,6 +230,7 @@ def reference_run(case, ctx, observe=True):
     hr = HistoryRunner(backend, path, ctx.tmp)
     obs = Observer(path, backend) if observe else None
     pos = Positions()
+    collateral = []
     observations = []          # (op index j, writes issued in op j so far, total writes issued, state|None, kind, stmtkind)
     cur = dict(j=-1, w_op=0, w_total=0)
     op_meta = []
@@ -245,6 +251,11 @@ def reference_run(case, ctx, observe=True):
             w0 = cur["w_total"]
             desc = hr.run_op(op)
             final = hr.refresh()
+            gone = prev - final
+            if gone:
+                bad = [r for r in gone if not may_remove(op, desc, r)]
+                if bad and not collateral:
+                    collateral.append((j, op["op"], op.get("what"), None if desc is None else desc.get("raised"), sorted(bad, key=repr)[:4]))
             chains = intermediates(prev, final, prev_ids, hr.ids, desc, backend, op.get("b"))
             for chain in chains:
                 for k, stt in enumerate(chain, start=1):
@@ -262,7 +273,27 @@ def reference_run(case, ctx, observe=True):
             ctx.count("observer_full_reads", obs.reads)
             obs.close()
         hr.close(remove=True)
+    op_meta.append(dict(collateral=collateral))
     return pos, observations, op_meta
+
+
+def may_remove(op, desc, row):
+    """May this operation make `row` disappear from the writer's view? (rows are ('B', id, …) / ('E', bucket, uid, …))"""
+    kind = op["op"]
+    b = op.get("b")
+    if desc is None or kind in ("insert", "bulk", "read", "delete_missing", "create_bucket", "fail"):
+        return False
+    if kind == "update_bucket":
+        return row[0] == "B" and row[1] == b
+    if kind == "delete_bucket":
+        return row[1] == b
+    if kind in ("replace", "delete"):
+        return row[0] == "E" and row[1] == b and row[2] in desc.get("targets", [])
+    if kind == "upsert":
+        return row[0] == "E" and row[1] == b and row[2] in [s[1] for s in desc.get("steps", []) if s[0] == "rewrite"]
+    if kind == "replace_last":
+        return row[0] == "E" and row[1] == b
+    return False
 
 
 BUCKET_OPS = ("create_bucket", "update_bucket", "delete_bucket")
@@ -273,6 +304,14 @@ def judge(case, pos, observations, op_meta, ctx, tier_label):
     backend = case["backend"]
     viols = []
     last_lin = 0
+    coll = op_meta[-1].get("collateral") if op_meta and "collateral" in op_meta[-1] else None
+    if coll:
+        j, opk, what_, raised, rows = coll[0]
+        viols.append((f"{backend}:acknowledged-writes-discarded-by-another-operation",
+                      f"{backend} {tier_label} op#{j} {opk}{'/' + what_ if what_ else ''} (raised: {raised}) made rows vanish from the "
+                      f"writer's own view that it does not address: {rows!r:.500}"))
+        return viols
+    ctx.count("collateral_loss_checks", max(0, len(op_meta) - 1))
     for (j, w_op, w_total, state, kind, what) in observations:
         if state is None:
             ctx.inconclusive += 1
@@ -305,7 +344,7 @@ def judge(case, pos, observations, op_meta, ctx, tier_label):
         if kind == "ret":
             ctx.count("returns_checked")
             opk = case["ops"][j]["op"]
-            executed = op_meta[j]["executed"] if j < len(op_meta) else True
+            executed = op_meta[j].get("executed", True) if j < len(op_meta) else True
             if (opk in BUCKET_OPS and executed) or backend == "peewee":
                 if best != pos.end_of_op[j]:
                     what_ = "bucket-level operation" if opk in BUCKET_OPS else "completed operation"
